@@ -30,6 +30,7 @@ class Tracer:
         self.installed = False
         self.ignore_suffixes = ("-journal", "-wal", "-shm")
         self._torn_target = None
+        self.n_effects = 0  # crash-relevant effects seen so far (mkdir excluded)
 
     # -- lifecycle
     def install(self) -> None:
@@ -49,6 +50,7 @@ class Tracer:
         self.install()
         self.root = os.path.realpath(str(root)) + os.sep
         self.events = []
+        self.n_effects = 0
         self.on = True
 
     def stop(self) -> list:
@@ -86,7 +88,8 @@ class Tracer:
 
     def _emit(self, ev) -> None:
         self.events.append(ev)
-        if self.crash_at is not None and len(self.events) == self.crash_at:
+        self.n_effects += 1
+        if self.crash_at is not None and self.n_effects == self.crash_at:
             if self.torn is not None and ev[0] == "write":
                 self._torn_target = os.path.join(self.root, ev[1])
                 return  # let the write start; _torn_write finishes the job
